@@ -35,7 +35,13 @@
      IMPL(ag.live[s][2] && !ag.live[s][0], (rt)->video[s].sink.is_stopping) &&                \
      IFF((rt)->video[s].monitor.reader.state == ChannelState_Mapped, ag.mon_mapped[s]) &&     \
      (rt)->video[s].monitor.reader.status == Channel_Ok && ag.mon_intervals[s] >= 0 &&        \
-     ag.mon_intervals[s] <= 2 && IMPL(ag.mon_mapped[s], ag.mon_intervals[s] >= 1))
+     ag.mon_intervals[s] <= 2 && IMPL(ag.mon_mapped[s], ag.mon_intervals[s] >= 1) &&          \
+     ag.wr_intervals[s][0] >= 0 && ag.wr_intervals[s][0] <= 2 && ag.wr_intervals[s][1] >= 0 && \
+     ag.wr_intervals[s][1] <= 2 && !ag.wr_mapped[s][0] && !ag.wr_mapped[s][1] &&              \
+     (rt)->video[s].sink.reader.state == ChannelState_Unmapped &&                             \
+     (rt)->video[s].filter.reader.state == ChannelState_Unmapped &&                           \
+     IMPL(ag.wr_intervals[s][0] > 0, (rt)->video[s].sink.reader.id != 0) &&                   \
+     IMPL(ag.wr_intervals[s][1] > 0, (rt)->video[s].filter.reader.id != 0))
 
 #define RI(rt)                                                                                \
     (RI_STREAM(rt, 0) && RI_STREAM(rt, 1) &&                                                  \
@@ -318,6 +324,13 @@ arb_runtime(void)
         ag.mon_mapped[s] = v->monitor.reader.state == ChannelState_Mapped;
         ag.mon_intervals[s] = nd_uchar() % 3;
         VASSUME(v->monitor.reader.id != 0 || !ag.mon_mapped[s]);
+        /* the workers' own readers: unmapped (every worker exit path unmaps), any leftovers */
+        ag.wr_intervals[s][0] = nd_uchar() % 3;
+        ag.wr_intervals[s][1] = nd_uchar() % 3;
+        v->sink.reader.id = (ag.wr_intervals[s][0] || nd_bool()) ? 1 : 0;
+        v->filter.reader.id = (ag.wr_intervals[s][1] || nd_bool()) ? 3 : 0;
+        v->sink.reader.state = ChannelState_Unmapped;
+        v->filter.reader.state = ChannelState_Unmapped;
     }
     VASSUME(RI(g_rt));
     g_valid0 = g_rt->valid_video_streams;
